@@ -1,9 +1,12 @@
 package checks
 
 import (
+	"bytes"
 	"encoding/json"
 	"fmt"
 	"strings"
+
+	"github.com/alttpo/snes/asm"
 
 	"verif/internal/report"
 )
@@ -20,16 +23,95 @@ func c19Classify(d string) string {
 	return "unexplained:capacity"
 }
 
-// c19History replays the calls against the capacity model and, for a real buffer, finalizes: a
-// refused label-referencing call must not have registered a reference.
+// c19History is differential: the emitter under test B (a target of the given capacity, or no target
+// at all when capacity < 0) runs next to a twin T with ample room that receives exactly the calls B
+// accepted. The twin says how many bytes a call needs; nothing is predicted from a model, so what the
+// emitter encodes, which width guards or duplicate labels it refuses and how it resolves labels (other
+// properties) cannot raise an alarm here -- only behaviour that depends on the room left can.
 func c19History(v asmVariant, capacity int, ops []asmOp, window bool) string {
-	e, m, d := runHistoryShape(v, capacity, ops, window)
-	if d == "" && capacity >= 0 {
-		if d = checkFinalize(e, m); d != "" {
-			d = "after the history (refusals included): " + d
+	const roomy = 224 // the longest history of the alphabet emits 5 x 33 bytes
+	dry := capacity < 0
+	var b *asm.Emitter
+	var g *asmGuard
+	if window && !dry {
+		b, g = newRealEmitterWindow(v, capacity)
+	} else {
+		b = newRealEmitter(v, capacity)
+	}
+	t := newRealEmitter(v, roomy)
+	accepted := make([]asmOp, 0, len(ops))
+	for i, op := range ops {
+		tLen := t.Len()
+		tpn := applyReal(t, op)
+		ta := observe(t, asmLabelNames)
+		need := ta.n - tLen
+		bb := observe(b, asmLabelNames)
+		bpn := applyReal(b, op)
+		ba := observe(b, asmLabelNames)
+		if dry {
+			if (bpn != nil) != (tpn != nil) {
+				return fmt.Sprintf("call #%d %s: the nil-target emitter refused=%v (%v), an emitter with a buffer refused=%v (%v)", i, op.name, bpn != nil, bpn, tpn != nil, tpn)
+			}
+			if ba.pc != ta.pc || ba.flags != ta.flags || !sameLabels(ba.labels, ta.labels) {
+				return fmt.Sprintf("after call #%d %s the nil-target emitter reports pc=$%06x flags=%02x labels=%v, an emitter with a buffer pc=$%06x flags=%02x labels=%v", i, op.name, ba.pc, ba.flags, ba.labels, ta.pc, ta.flags, ta.labels)
+			}
+			continue
+		}
+		if tpn != nil {
+			// refused for a reason of its own (width guard, duplicate label): B is in the same state and must agree
+			if bpn == nil {
+				return fmt.Sprintf("call #%d %s: refused in a roomy buffer (%v) but accepted with capacity %d", i, op.name, tpn, capacity)
+			}
+			continue
+		}
+		if bb.n+need <= capacity {
+			if bpn != nil {
+				return fmt.Sprintf("call #%d %s needs %d bytes, Len=%d Cap=%d: it fits but was refused (%v)", i, op.name, need, bb.n, capacity, bpn)
+			}
+			if !ba.equal(ta) {
+				return fmt.Sprintf("after call #%d %s (fits): %v, the same calls in a roomy buffer give %v", i, op.name, ba, ta)
+			}
+			accepted = append(accepted, op)
+		} else {
+			if bpn == nil {
+				return fmt.Sprintf("call #%d %s needs %d bytes, Len=%d Cap=%d: it does not fit but was accepted; now %v", i, op.name, need, bb.n, capacity, ba)
+			}
+			if !ba.equal(bb) {
+				return fmt.Sprintf("call #%d %s was refused (%v) but changed the emitter: before %v after %v", i, op.name, bpn, bb, ba)
+			}
+			// the twin must not have the refused call: rebuild it from the accepted ones
+			t = newRealEmitter(v, roomy)
+			for _, a := range accepted {
+				applyReal(t, a)
+			}
+		}
+		if ba.n > capacity || b.Cap() != capacity {
+			return fmt.Sprintf("after call #%d %s: Len()=%d Cap()=%d with a %d-byte target", i, op.name, ba.n, b.Cap(), capacity)
+		}
+		if d := g.intact(); d != "" {
+			return fmt.Sprintf("call #%d %s wrote outside the target buffer: %s", i, op.name, d)
 		}
 	}
-	return d
+	if dry {
+		return ""
+	}
+	// a refused label-referencing call must not have registered a reference: Finalize like the twin
+	fin := func(e *asm.Emitter) (err error, pn interface{}) {
+		defer func() { pn = recover() }()
+		return e.Finalize(), nil
+	}
+	eb, pb := fin(b)
+	et, pt := fin(t)
+	if (eb == nil) != (et == nil) || (pb == nil) != (pt == nil) {
+		return fmt.Sprintf("after the history (refusals included) Finalize returns %v (panic %v); an emitter that received only the accepted calls returns %v (panic %v)", eb, pb, et, pt)
+	}
+	if eb == nil && pb == nil && !bytes.Equal(b.Bytes(), t.Bytes()) {
+		return fmt.Sprintf("after the history (refusals included) finalized bytes are % x; an emitter that received only the accepted calls has % x", b.Bytes(), t.Bytes())
+	}
+	if d := g.intact(); d != "" {
+		return "Finalize wrote outside the target buffer: " + d
+	}
+	return ""
 }
 
 func c19Run(h asmHistory) (sig, what string) {
@@ -63,18 +145,21 @@ func runC19(r *report.Run) {
 	}
 	all := asmVariants()
 	variants := []asmVariant{all[5], all[2]} // listing off / base unset; listing on / base $008000
+	if thorough {
+		variants = variants[:1] // the deep pass on one variant (each case runs two target shapes and a twin)
+	}
 	var capCases int64
 	visit := func(v asmVariant, al []asmOp, idx []int) (string, string, int, *asmHistory) {
 		ops := make([]asmOp, len(idx))
 		for i, k := range idx {
 			ops[i] = al[k]
 		}
-		// unbounded size of the program
-		mm := newModelFor(v, 1<<20)
+		// size of the program in a roomy buffer (real emitter)
+		re := newRealEmitter(v, 224)
 		for _, op := range ops {
-			op.model(mm)
+			applyReal(re, op)
 		}
-		size := len(mm.bytes)
+		size := re.Len()
 		n := 0
 		for capacity := -1; capacity <= size+1; capacity++ {
 			// both shapes of target: a whole array (len == cap) and a window of a larger one (len < cap)
@@ -93,7 +178,7 @@ func runC19(r *report.Run) {
 	hist, trans, st := asmHistorySearch(depth, variants, visit, r, 0)
 	capCases = st
 	if thorough {
-		// all ten constructor variants one level shallower (the deep pass above runs on two of them:
+		// all ten constructor variants one level shallower (the deep pass above runs on one of them:
 		// depth 5 on all ten is 2.7*10^9 (history, capacity) cases, well over an hour on 16 cores)
 		h2, t2, s2 := asmHistorySearch(depth-1, all, visit, r, 0)
 		hist, trans, capCases = hist+h2, trans+t2, capCases+s2
@@ -106,7 +191,7 @@ func runC19(r *report.Run) {
 	r.Set("histories", hist)
 	r.Set("history_x_capacity_cases", capCases)
 	r.Set("bounds", map[string]interface{}{"history_depth": depth, "alphabet": len(asmAlphabet()), "constructor_variants": len(variants), "thorough_second_pass": "all 10 constructor variants at depth 4", "capacities": "every capacity from 0 to program size + 1, each as a whole array (len == cap) and as a window of a larger canary-filled array (len < cap), plus the nil-target (dry-run) emitter"})
-	r.Set("rule", "every call sequence up to the depth x every buffer capacity from 0 to the program's size + 1 and the nil-target emitter: each call runs on a fresh real Emitter and on the capacity model, the target buffer given once as a whole array and once as a window of a larger array whose bytes outside the window must stay untouched; a call that does not fit must panic and leave Bytes/Len/PC/Flags/labels unchanged, the history continues after a refusal, a call that fits must behave as in the unbounded model, and the nil-target emitter must report the same PC, labels and flags after every call; non-trivial = capacity below the program size or nil target (at least one call differs from the roomy run)")
+	r.Set("rule", "every call sequence up to the depth x every buffer capacity from 0 to the program's size + 1 and the nil-target emitter: each call runs on a fresh real Emitter and on a twin real Emitter with ample room that receives exactly the accepted calls (the twin tells how many bytes a call needs; nothing is predicted from a model), the target buffer given once as a whole array and once as a window of a larger array whose bytes outside the window must stay untouched; a call that does not fit must panic and leave Bytes/Len/PC/Flags/labels unchanged, the history continues after a refusal, a call that fits must leave the emitter exactly like the twin, Finalize after the history must agree with the twin's, and the nil-target emitter must report the same PC, labels and flags after every call; non-trivial = capacity below the program size or nil target (at least one call differs from the roomy run)")
 	r.Sample(asmHistory{Variant: variants[0], Ops: []string{"LDA_abs($1234)", "JSL($123456)", "NOP"}, Capacity: 5})
 	r.Sample(asmHistory{Variant: variants[1], Ops: []string{"SEP(#$20)", "LDA_imm8_b($7F)", "EmitBytes(17)"}, Capacity: -1})
 	r.Assume("listing lines are not part of the property's list and are not compared here")
